@@ -697,7 +697,12 @@ impl<'a> Parser<'a> {
                 Ok(GraphPattern::SubSelect(Box::new(subquery)))
             }
             _ => {
-                // Triple patterns
+                // Triple patterns. `parse_triples_block` consumes nothing when
+                // the current token cannot start a triple, and the callers loop
+                // until they see '}', so a stray token must be rejected here.
+                if !self.is_triple_start() {
+                    return Err(self.error("expected a graph pattern or '}'"));
+                }
                 let triples = self.parse_triples_block()?;
                 Ok(GraphPattern::Basic(triples))
             }
